@@ -151,6 +151,9 @@ func c02Expr(c *vf.Check) {
 func c02Box(c *vf.Check) {
 	runFam(c, famSpec{id: "C02", fam: "box", name: "F_box", sizeQ: "3", sizeT: "4", tapeQ: "2", tapeT: "3", callsQ: 5, callsT: 6,
 		keys: fullKeys, opts: srcOpts{Box: true}, rule: ""})
+	// the same programs with a struct VALUE element type: the yielded operand is a composite literal
+	runFam(c, famSpec{id: "C02", fam: "box", name: "F_boxv", sizeQ: "3", sizeT: "4", tapeQ: "2", tapeT: "3", callsQ: 5, callsT: 6,
+		keys: fullKeys, opts: srcOpts{Box: true, BoxVal: true}, rule: ""})
 }
 
 // C03: local state and lexical scoping survive suspension.
@@ -159,6 +162,12 @@ func C03(c *vf.Check) {
 		keys: fullKeys, lazyT: true,
 		rule:   "every program of F_scope up to MaxSize: shadowing declarations a := a + 10 in nested blocks and in if / switch / for initialisers, a++ (also as post statement), a closure f := func() { a += 100 } created before any yield and called after, effects and yields observing the variables in scope; x every tape; non-trivial as in C01",
 		assume: []string{"no closure captures a three-clause loop variable across iterations (the only place where go<=1.21 and go>=1.22 scoping differ)"}})
+	// range loops: `=` forms assign the function-level variables (observed after the loop), `:=` forms do not
+	runFam(c, famSpec{id: "C03", fam: "rscope", name: "F_rscope", sizeQ: "3", sizeT: "4", tapeQ: "2", tapeT: "2", callsQ: 7, callsT: 8,
+		keys: fullKeys, budget: 60, rule: ""})
+	// a variable read by a yielded composite literal (struct value / pointer to a fresh object) is read when the yield is reached
+	runFam(c, famSpec{id: "C03", fam: "box", name: "F_boxv", sizeQ: "3", sizeT: "4", tapeQ: "2", tapeT: "3", callsQ: 5, callsT: 6,
+		keys: fullKeys, opts: srcOpts{Box: true, BoxVal: true}, rule: ""})
 }
 
 // C05: YieldFrom splices the delegate's remaining elements, lazily and in order.
